@@ -10,7 +10,7 @@ TECH = {
  "C05": ("runtime monitoring: props/directive log vs reference, plus firing each onUpdate listener with a sentinel and reading the target back", "the generated listener is actually invoked and the bound target read back; props and model directive compared with the reference"),
  "C06": ("runtime monitoring: scope analysis of the visitor's raw output (identifier identity), free-variable comparison, and ReferenceError/TypeError observation while executing the module", "generated names are checked statically on the raw AST and dynamically by executing every thunk and slot in every syntactic context"),
  "C07": ("runtime monitoring: JSX-node census of the output AST, re-parse of the printed output, diagnostics channel", "per execution: no error diagnostic implies no JSX node, no invalid identifier and a printed module that re-parses with JSX disabled"),
- "C08": ("runtime monitoring: catch_unwind + process exit status with crash bisection, byte comparison of repeated runs (same process, long-lived globals, fresh process with reversed history, and in the thorough tier an AddressSanitizer build of the driver whose reports and output are compared with the release build), recursion-depth hook gauge", "every execution is observed for panic/abort and repeated in three settings with byte comparison"),
+ "C08": ("runtime monitoring: catch_unwind + process exit status with crash bisection, per-case CPU-time watchdog with solo confirmation (hangs), byte comparison of repeated runs (same process, long-lived globals, a diagnostic handler that already holds an error, fresh process with reversed history, and in the thorough tier an AddressSanitizer build of the driver whose reports and output are compared with the release build), recursion-depth hook gauge", "every execution is observed for panic/abort and repeated in three settings with byte comparison"),
  "C09": ("runtime monitoring: input/output AST frame alignment, baseline-relative second pass (idempotence), byte equality for JSX-free modules", "the raw output AST is aligned with the input AST outside JSX expressions; outputs are fed back through the pipeline with and without the visitor"),
  "C10": ("runtime monitoring: metamorphic twin execution (statement alone vs composed with unrelated code) + hook events on consumed traversal state", "canonical runtime values of a statement are compared between the module containing it alone and modules where unrelated code was concatenated"),
  "C11": ("runtime monitoring: probe-event trace (logging getters, proxies, functions) vs reference evaluation order", "creation traces are compared as multisets (exactly once) and on their ordered projection (source order), slot traces per invocation (laziness)"),
